@@ -81,6 +81,9 @@ type adgram struct {
 	Auth  string `json:"auth"`  // "absent" | "ok" | "bad" | "malformed"
 	Aspi  string `json:"aspi"`  // "client" | "server" | "other" | "-"
 	Aalgo string `json:"aalgo"` // "cmac" | "other" | "-"
+	// key regime with epochs: the key epochs (the DRKey daemon's numbering) under whose
+	// host-to-host key of this datagram's (ISD-AS, host) pairs the MAC verifies; empty otherwise
+	Vep []int `json:"vep"`
 	// strict-only details
 	RawOK bool `json:"raw_ok"` // outs: path bytes == slayers' own Reverse() of the request's path bytes
 	Echo  bool `json:"echo"`   // NTP reply: origin timestamp == request's transmit timestamp
@@ -95,7 +98,11 @@ type world struct {
 	ipC2 net.IP // a second client host (key regime)
 	// host-to-host key of (server IA, client IA, server host, client host); nil:
 	// USE_MOCK_KEYS, the all-zero key for everybody
-	keyFn   func(srvIA, cliIA addr.IA, srvHost, cliHost netip.Addr) []byte
+	keyFn func(srvIA, cliIA addr.IA, srvHost, cliHost netip.Addr) []byte
+	// key regime with epochs: the host-to-host key of epoch ep, and the range of epochs
+	// the DRKey daemon knows for a client ISD-AS (keyFn is then the key valid now)
+	keyEp   func(srvIA, cliIA addr.IA, srvHost, cliHost netip.Addr, ep int) []byte
+	epRange func(cliIA addr.IA) (lo, hi int)
 	ipP     net.IP
 	ipD     net.IP
 	srvPort int
@@ -563,6 +570,7 @@ type parsed struct {
 	last    gopacket.LayerType
 	hasE2E  bool
 	authOpt *slayers.EndToEndOption
+	vep     []int // set by authState: epochs under whose key the MAC verifies
 }
 
 func parse(w []byte) *parsed {
@@ -616,28 +624,42 @@ func (p *parsed) authState(w *world) (state, spi, algo string, macok bool) {
 	// the host-to-host key of the datagram as it is: a request (and anything that is
 	// not a response) travels client -> server, a response server -> client
 	key := zeroKey
+	verifies := p.verifies
 	if w != nil && w.keyFn != nil {
 		src, ok1 := netip.AddrFromSlice(p.sl.RawSrcAddr)
 		dst, ok2 := netip.AddrFromSlice(p.sl.RawDstAddr)
 		if !ok1 || !ok2 {
 			return "bad", spi, algo, false
 		}
+		srvIA, cliIA, srvHost, cliHost := p.sl.DstIA, p.sl.SrcIA, dst, src
 		if spi == "server" {
-			key = w.keyFn(p.sl.SrcIA, p.sl.DstIA, src, dst)
-		} else {
-			key = w.keyFn(p.sl.DstIA, p.sl.SrcIA, dst, src)
+			srvIA, cliIA, srvHost, cliHost = p.sl.SrcIA, p.sl.DstIA, src, dst
 		}
+		key = w.keyFn(srvIA, cliIA, srvHost, cliHost)
+		if w.keyEp != nil {
+			lo, hi := w.epRange(cliIA)
+			for e := lo - 1; e <= hi+1; e++ {
+				if verifies(w.keyEp(srvIA, cliIA, srvHost, cliHost, e)) {
+					p.vep = append(p.vep, e)
+				}
+			}
+		}
+	}
+	if verifies(key) {
+		return "ok", spi, algo, true
+	}
+	return "bad", spi, algo, false
+}
+
+// the MAC of the packet's authenticator verifies under key (scionproto's SPAO computation)
+func (p *parsed) verifies(key []byte) bool {
+	if p.authOpt == nil || len(p.authOpt.OptData) != optDataLen {
+		return false
 	}
 	mac := make([]byte, 16)
 	_, err := spao.ComputeAuthCMAC(spao.MACInput{Key: key, Header: slayers.PacketAuthOption{EndToEndOption: p.authOpt},
 		ScionLayer: &p.sl, PldType: slayers.L4UDP, Pld: p.e2e.Payload}, make([]byte, spao.MACBufferSize), mac)
-	if err != nil {
-		return "bad", spi, algo, false
-	}
-	if subtle.ConstantTimeCompare(mac, d[12:]) == 1 {
-		return "ok", spi, algo, true
-	}
-	return "bad", spi, algo, false
+	return err == nil && subtle.ConstantTimeCompare(mac, p.authOpt.OptData[12:]) == 1
 }
 
 // recomputes the MAC of the packet's authenticator in place (optionally after
@@ -685,7 +707,7 @@ func (m portMap) label(p uint16) string {
 // projects a serialized SCION packet to model units
 func (w *world) project(mode string, wire []byte, pm portMap) (adgram, *parsed) {
 	d := adgram{L4: "undec", Sia: "?", Dia: "?", Sh: "?", Dh: "?", Sp: "-", Dp: "-", Path: emptyPath, Pl: "-", Ext: "e2e",
-		Auth: "absent", Aspi: "-", Aalgo: "-", To: "-", From: "-", Ul: "-"}
+		Auth: "absent", Aspi: "-", Aalgo: "-", To: "-", From: "-", Ul: "-", Vep: []int{}}
 	p := parse(wire)
 	if !p.ok {
 		return d, p
@@ -715,6 +737,7 @@ func (w *world) project(mode string, wire []byte, pm portMap) (adgram, *parsed) 
 		d.L4 = "l4x"
 	}
 	d.Auth, d.Aspi, d.Aalgo, _ = p.authState(w)
+	d.Vep = append(d.Vep, p.vep...)
 	d.Ext = "e2e"
 	for _, lt := range p.layers {
 		if lt == slayers.LayerTypeHopByHopExtn {
